@@ -24,6 +24,10 @@ CONFIGS = {
     # until(<connective of flags>): the notification fires when the connective becomes true
     'until_conn': dict(B, NRoots=2, MaxActs=3, MaxScopes=1, RootOps=3, TaskOps=1, NFlags=2, CondSel='flat',
                        Menu={'instant', 'sleep', 'leave', 'until_conn', 'fset', 'do'}),
+    # a second activity watches the children of somebody else's scope and spawns into that scope when one ends
+    # ("supervisor restarts the worker"): late spawns racing with the failure of the last child
+    'supervisor': dict(B, NRoots=2, MaxActs=4, MaxScopes=1, RootOps=3, TaskOps=1,
+                       Menu={'open', 'do', 'do_after', 'raise', 'leave', 'await_t', 'sleep', 'instant'}),
     # a task cancelled while it is inside its own scope whose child fails in the same time step
     'cancel_nested': dict(B, NRoots=1, MaxActs=3, MaxScopes=2, RootOps=4, TaskOps=3, Horizon=1,
                           Menu={'instant', 'sleep', 'open', 'do', 'cancel', 'raise', 'nocatch'}),
@@ -41,6 +45,8 @@ CONFIGS = {
     'graceful': dict(B, NRoots=1, MaxActs=4, MaxScopes=1, RootOps=4, TaskOps=2,
                      Menu={'leave', 'instant', 'sleep', 'open', 'do', 'do_volatile', 'cancel'}),
 }
+# configurations whose interesting states are rare: every witness is replayed, not a sample
+FULL = {'supervisor': 80000}
 INVS = ['NoFault', 'NoForeignSignal', 'RunLive', 'CascadeShape', 'Contained', 'NoStepAfterExit', 'DoneStable']
 
 
@@ -59,14 +65,14 @@ def run(check, obs, labels, limit=None, invariants=INVS, random=True, conform=Fa
 
     def gen(label):
         return label, check.witnesses(label, CONFIGS[label], emit='EmitOps', invariants=list(invariants) + (['NoStuck'] if check.tier == 'thorough' else []),
-                                      coverage=check.tier == 'thorough', limit=limit)
+                                      coverage=check.tier == 'thorough', limit=max(limit, FULL.get(label, 0)))
     labels = list(labels)
     for lo in range(0, len(labels), 3):         # the TLC runs of three configurations overlap
         with ThreadPoolExecutor(3) as ex:
             generated = list(ex.map(gen, labels[lo:lo + 3]))
         for label, ws in generated:
             consts = CONFIGS[label]
-            judge([(p, t, consts['NRoots']) for p, t in usimrun.replay(check, ws, consts, limit=limit)])
+            judge([(p, t, consts['NRoots']) for p, t in usimrun.replay(check, ws, consts, limit=max(limit, FULL.get(label, 0)))])
         del generated
     if random:
         judge(usimrun.random_runs(check, conform=conform))
